@@ -23,7 +23,7 @@ def step (_ : Unit) (ws : List String) : Unit × String :=
       match n.toNat?, seed.toNat? with
       | some n, some sd =>
         let m : MapClear.GoMap Nat Nat := (List.range n).map (fun i => (i * 7 + sd, i))
-        let m' := MapClear.mapClear (fun i => sd * (i + 1) + i * i) m
+        let m' := MapClear.mapClear m
         let m'' := MapClear.insert m' 5 6
         let usable := MapClear.lookup m'' 5 == some 6 && m''.length == m'.length + 1
         s!"len {m'.length} " ++ (if usable then "usable" else "unusable")
